@@ -196,9 +196,55 @@ pub fn run_backend(backend: u8, run: &RunCfg, case: u64, stop_after: Option<usiz
     }
 }
 
+/// Several chains through the REAL parallel sampler into Zarr, compared with the HashMap backend of the same run (same seed): per-draw
+/// statistics and the divergence event arrays of EVERY chain. The chains have different divergence patterns (even chains diverge during
+/// warmup, odd chains during sampling), so the event arrays are sized by different chains in the two phases.
+fn multi_chain_zarr(seed: u64, case: u64, rep: &mut Report) {
+    use crate::ctl;
+    let mut r = Sm::new(seed, "C14-multi", case);
+    let cfg = ctl::Cfg { gen_seed: seed, gen_tier: "quick".into(), preset: 0, seed: r.next() | 1, sched: 0, num_chains: 2 + r.below(2) as usize, num_cores: 2,
+        num_tune: 10 + r.below(8), num_draws: 10 + r.below(8), dim: 2, script: vec![], end_abort: false, poll_finish: false,
+        failure: ctl::Failure::Split { x: 60 + r.below(80), period: 3 + r.below(3) } };
+    let settings = || { let mut s = nuts_rs::DiagNutsSettings::default(); s.num_tune = cfg.num_tune; s.num_draws = cfg.num_draws; s.num_chains = cfg.num_chains; s.seed = cfg.seed; s.maxdepth = 4; s.store_divergences = case % 2 == 0; s };
+    let replay = json!({"kind": "c14multi", "seed": seed, "case": case});
+    rep.evaluations += 1;
+    rep.hit("multi_chain_zarr");
+    let reference = ctl::run(&cfg, settings(), HashMapConfig::new(), ctl::hashmap_maps);
+    let Some(refmaps) = reference.traces else { rep.notes.push(format!("multi-chain reference run did not finish: {}", reference.result)); return; };
+    let store = Arc::new(zarrs::storage::store::MemoryStore::new());
+    let z = ctl::run(&cfg, settings(), ZarrConfig::new(store.clone()).with_chunk_size(*r.pick(&[3u64, 7, 100])), |_| vec![]);
+    if z.result != "trace" { rep.violation("zarr.multi_chain_run", &format!("parallel run into Zarr ended with '{}'", z.result), replay); return; }
+    let cell_b = |c: &Cell| matches!(c, Cell::B(true));
+    for (chain, (st, _dr)) in refmaps.iter().enumerate() {
+        let (Some(tun), Some(div)) = (st.get("tuning"), st.get("diverging")) else { continue };
+        let n_w = tun.iter().filter(|c| cell_b(c)).count();
+        let n_s = tun.len() - n_w;
+        let dw = (0..tun.len()).filter(|i| cell_b(&tun[*i]) && cell_b(&div[*i])).count();
+        let ds = (0..tun.len()).filter(|i| !cell_b(&tun[*i]) && cell_b(&div[*i])).count();
+        if dw > 0 || ds > 0 { rep.hit("multi_chain_zarr.chain_with_divergences"); }
+        for (name, cells) in st.iter() {
+            // rows per phase: one per draw for the always-present statistics, one per divergence for the two divergence event statistics that every divergence carries (the optional ones hold
+            // fill values in Zarr where HashMap holds nothing)
+            let (rw, rs) = if name == "divergence_draw" || name == "divergence_message" { (dw, ds) } else if ["logp", "energy", "diverging", "tuning", "depth", "n_steps", "step_size", "energy_error"].contains(&name.as_str()) { (n_w, n_s) } else { continue };
+            if rw + rs == 0 { continue; }
+            if cells.len() % (rw + rs) != 0 { continue; }
+            let per = cells.len() / (rw + rs);
+            for (group, start, rows) in [("/warmup_sample_stats", 0usize, rw), ("/sample_stats", rw, rs)] {
+                let path = format!("{group}/{name}");
+                match zarr_read(store.clone(), &path, chain as u64, rows) {
+                    Err(e) => { rep.violation("zarr.multi_chain", &format!("chain {chain}: {e} (warmup/sampling divergences of this chain: {dw}/{ds})"), replay.clone()); return; }
+                    Ok((got, _)) => { let flat: Vec<Cell> = got.into_iter().flatten().collect();
+                        if flat[..] != cells[start * per..(start + rows) * per] { rep.violation("zarr.multi_chain", &format!("chain {chain}: {path} differs from the HashMap trace of the same run"), replay.clone()); return; } }
+                }
+            }
+        }
+    }
+}
+
 pub fn main(tier: &str, seed: u64, outdir: &str) {
     let mut cases = Cases::new();
     let mut rep = Report::new("C14");
+    for case in 0..(if tier == "thorough" { 200 } else { 6 }) { multi_chain_zarr(seed, case, &mut rep); }
     let n = if tier == "thorough" { 7000 } else { 84 };
     for case in 0..n {
         let mut r = Sm::new(seed, "C14", case);
@@ -233,6 +279,12 @@ pub fn main(tier: &str, seed: u64, outdir: &str) {
 }
 
 pub fn replay(v: &serde_json::Value) -> bool {
+    if v["kind"] == "c14multi" {
+        let mut rep = Report::new("replay");
+        multi_chain_zarr(v["seed"].as_u64().unwrap_or(0), v["case"].as_u64().unwrap_or(0), &mut rep);
+        println!("replay: {:?}", rep.violations.iter().map(|v| v["what"].as_str().unwrap_or("").to_string()).collect::<Vec<_>>());
+        return !rep.violations.is_empty();
+    }
     let run = RunCfg::from_json(&v["run"]);
     let mut cases = Cases::new();
     let r = match std::panic::catch_unwind(std::panic::AssertUnwindSafe(|| run_backend(v["backend"].as_u64().unwrap() as u8, &run, v["case"].as_u64().unwrap(), v["stop_after"].as_u64().map(|x| x as usize), &mut cases))) { Ok(r) => r, Err(_) => Some(("panic".into(), "storage backend panicked".into())) };
